@@ -34,6 +34,20 @@ func DriveCfg() RunCfg {
 
 func (d *driver) hook(to string) M {
 	r := d.rng
+	if r.Intn(8) == 0 { // an executor delivers further deposits from inside the hook
+		next := absx.Int(d.ch.Project()["seqL1"])
+		n := 1 + r.Intn(2)
+		var msgs []any
+		for i := 0; i < n; i++ {
+			denom := pick(r, []string{"l2/1/d1", "l2/1/d2"})
+			msgs = append(msgs, M{"kind": "deposit", "seq": next + int64(i) + int64(pick(r, []int{0, 1, 1, 1, 1, 2})), "from": pick(r, dUsers), "to": pick(r, []string{"u1", "u2", "u3", "opchild"}), "denom": denom,
+				"amt": int64(r.Intn(9)), "base": map[string]string{"l2/1/d1": "d1", "l2/1/d2": "d2"}[denom], "height": int64(7)})
+		}
+		if r.Intn(4) == 0 {
+			msgs = append(msgs, M{"kind": "send", "to": "panic", "denom": "l2/1/d1", "amt": int64(1)})
+		}
+		return M{"kind": "msgs", "signer": pick(r, []string{"e1", "e2", "e2", "e2", "u1"}), "msgs": msgs}
+	}
 	switch r.Intn(10) {
 	case 0:
 		return M{"kind": "undecodable", "signer": "", "msgs": []any{}}
